@@ -102,21 +102,13 @@ Theorem C13_projection_recovers_coefficients :
 Proof. exact @projection_is_mass_times_coefficients. Qed.
 Print Assumptions C13_projection_recovers_coefficients.
 
-(* _integrate: refuted for signed multipliers (witness), proved where the multipliers are idempotent *)
-Theorem C13_integrate_refuted :
-  exists (nel : nat) (rule : list (pt2 Q * Q)) (intel : nat -> Q) (S0 : space Q) (sh : @basisfn Q) (coef : nat -> Q) (d : nat),
-    let ev := fun e i p d => (sh e i p d * sp_mult S0 e i)%Q in
-    ~ (integrate nel rule intel S0 ev coef d == integrate_direct nel rule intel S0 ev coef d)%Q.
-Proof. exact integrate_refuted. Qed.
-Print Assumptions C13_integrate_refuted.
-
-Theorem C13_integrate_nonneg_multipliers :
+(* _integrate (after the fix: commit edfc0c1 the multipliers enter once): quadrature of the represented function for
+   every space, signed multipliers included *)
+Theorem C13_integrate :
   forall (A : Type) (R : CRing A) nel rule intel (S0 : space A) (ev : basisfn) coef d,
-    (forall e i q, In e (support_elements nel S0) -> (i < sp_ns S0)%nat -> In q rule ->
-                   req (rmul (ev e i (fst q) d) (sp_mult S0 e i)) (ev e i (fst q) d)) ->
     req (integrate nel rule intel S0 ev coef d) (integrate_direct nel rule intel S0 ev coef d).
-Proof. exact @integrate_idempotent_multipliers. Qed.
-Print Assumptions C13_integrate_nonneg_multipliers.
+Proof. exact @integrate_is_direct_quadrature. Qed.
+Print Assumptions C13_integrate.
 
 Theorem C13_evaluate_vertices :
   forall (A : Type) (R : CRing A) nel els vol (S0 : space A) ev coef v d (c : A),
@@ -132,18 +124,13 @@ Theorem C13_evaluate_centres :
 Proof. exact @eval_centers_value. Qed.
 Print Assumptions C13_evaluate_centres.
 
-(* MultiplicationOperator: intended operator on whole-grid spaces, refuted on restricted supports *)
-Theorem C13_multiplication_operator_partial :
-  forall (A : Type) (R : CRing A) nel dim rule intel (St Sr Sf : space A) evt evr evf gcoef,
-    (forall e, (e < nel)%nat -> sp_support St e = true /\ sp_support Sr e = true /\ sp_support Sf e = true) ->
-    mult_op_core nel dim rule intel St Sr Sf evt evr evf gcoef =
-    mult_op_intended nel dim rule intel St Sr Sf evt evr evf gcoef.
-Proof. exact @mult_op_whole_grid. Qed.
-Print Assumptions C13_multiplication_operator_partial.
-
-Theorem C13_multiplication_operator_refuted :
-  exists (nel dim : nat) (rule : list (pt2 Q * Q)) (intel : nat -> Q) (S0 : space Q) (ev : @basisfn Q) (g : nat -> Q),
-    ~ (scatter (mult_op_core nel dim rule intel S0 S0 S0 ev ev ev g) 0%nat 0%nat ==
-       scatter (mult_op_intended nel dim rule intel S0 S0 S0 ev ev ev g) 0%nat 0%nat)%Q.
-Proof. exact mult_op_refuted_on_segments. Qed.
-Print Assumptions C13_multiplication_operator_refuted.
+(* MultiplicationOperator, mode 'component' (after fix: 040d575): entry (r, c) is the quadrature of
+   (test function r) . g . (trial function c) over the common support of the three spaces, component by component *)
+Theorem C13_multiplication_operator :
+  forall (A : Type) (R : CRing A) nel dim rule intel (St Sr Sf : space A) evt evr evf gcoef r c,
+    req (scatter (mult_op_core nel dim rule intel St Sr Sf evt evr evf gcoef) r c)
+        (sumf (fun e => sumf (fun d => sumf (fun q =>
+            rmul (rmul (gfun r St evt e (fst q) d) (rmul (gf_eval Sf evf gcoef e (fst q) d) (gfun c Sr evr e (fst q) d)))
+                 (rmul (snd q) (intel e))) rule) (seq 0 dim)) (mult_elements nel St Sr Sf)).
+Proof. exact @mult_op_entry. Qed.
+Print Assumptions C13_multiplication_operator.
